@@ -1,4 +1,5 @@
 import CifModel.Lemmas.HeapHistOps
+import CifModel.Lemmas.HeapHistInj
 /-
   Lemmas for operation histories on the heap, part 4: one operation of the op language keeps the invariant
   (`Sim [] (stepH? fuel s op) (stepP? p op)`): the heap interpretation succeeds exactly when the pure one does, and the
@@ -110,9 +111,15 @@ theorem copyOnto_step (inv : RepS T s p F) (fuel : Nat) (hf : Fits fuel p) (src 
         obtain ⟨t, hvt, Ft, hrest, hgt, hvalt, _, hrept, htF, hFt, hk⟩ := inv.atVal dst hv.2 dv hd
         rw [hrest]
         simp only []
-        by_cases he : src = dst
-        · simp only [he, if_true]; exact Sim.mk inv
-        · simp only [he, if_false]
+        by_cases hta : t = sa
+        · -- the same address: the same reference (RepS.resolve_inj)
+          have he : src = dst := inv.resolve_inj src dst sv dv hs hd sa hres (hta ▸ hrest)
+          simp only [hta, he, if_true]; exact Sim.mk inv
+        · have he : ¬ src = dst := fun e => by
+            subst e
+            rw [hres] at hrest
+            exact hta (Option.some.inj hrest).symm
+          simp only [hta, he, if_false]
           obtain ⟨h', new, Fn, hop, U, _⟩ := cloneOntoAt_spec s.h inv.wf t hvt dv Ft fuel hgt hvalt hrept htF hFt (hf.getP hd)
             sa hs' sv Fs hfs hreps hFs (hf.getP hs)
           obtain ⟨p', F', hput, inv'⟩ := hk h' new sv Fn [] U
